@@ -81,6 +81,9 @@ def run(name, checks):
     meta.setdefault("check_results", {}).update(results)
     json.dump(meta, open(meta_p, "w"), indent=1)
     # restore evidence of the unchanged tree
+    for c in checks:
+        rc, out = sh("./check %s --tier quick" % c, cwd=VERIF, timeout=3600)
+        print("clean re-run", c, "exit", rc)
     return 0
 
 
